@@ -1422,7 +1422,7 @@ def configs(tier):
         for na, dsh in ((None, None), (5, None), (None, 7)) if thorough else ((None, None), (5, 7)):
             cfgs.append({'kind': 'factory', 'factory': 'parallel_beam_geometry', 'space': sp,
                          'num_angles': na, 'det_shape': dsh})
-            for radii in ([5.0, 5.0], [3.5, 9.0], [20.0, 0.0], [4.0, 1.0]):
+            for radii in ([5.0, 5.0], [3.5, 9.0], [20.0, 0.0], [4.0, 1.0])[:4 if thorough else 2]:
                 for short in (0, 1):
                     cfgs.append({'kind': 'factory', 'factory': 'cone_beam_geometry', 'space': sp,
                                  'radii': radii, 'short_scan': short, 'num_angles': na,
